@@ -57,11 +57,11 @@ CLAIMED = {
     'C10': ("proved: validate_taxonomy_tree normal return => strict tree, get_child_to_parent, "
             "_get_leaves_from_tree / convert_tree_to_leaves, get_all_leaf_pairs, _drop_level, flatten, parents/children; "
             "bounded: every tree shape <= 3 levels <= 5 leaves",
-            "JSON round trip trusted; S-9/S-10 (duplicate level name / repeated child accepted by the validator) recorded"),
+            "JSON round trip trusted; S-9/S-10 (duplicate level name / repeated child accepted by the validator) were fixed in /repo (ea18b24)"),
     'C11': ("proved: penetrance logic (completeness, floors, exact mode), score_differential_genes, "
             "q_score_from_pij / pij_from_stats, correct_ttest range facts, _get_validity_mask; bounded: Holm equality "
             "on p-value grids, both marker routes end to end against scipy Welch + Holm",
-            "scipy t CDF trusted; A-REAL; S-4, S-7, N-2 recorded as open findings"),
+            "scipy t CDF trusted; A-REAL; S-7, N-2 recorded as open findings (S-4 fixed in /repo)"),
     'C12': ("proved: per-function selection contracts (_get_are_possible, _get_newly_full_mask, _get_maxed_out, "
             "_update_marker_counts, _update_been_filled incl. terminal case, recalculate_utility_array_batch, "
             "_choose_one_gene); bounded: select_all_markers on tiny marker tables (coverage >= min(2n, available))",
@@ -98,7 +98,7 @@ CLAIMED = {
             "(scratch ghost state, A-TMP); bounded: input hashes, directory snapshots, stale files, concurrent runs "
             "for every stage",
             "tempfile uniqueness (A-TMP) and _clean_up semantics trusted; __del__-based clean-up under A-DEL; "
-            "histories and concurrent runs are bounded executions; F-19-2 recorded"),
+            "histories and concurrent runs are bounded executions; F-19-2 fixed in /repo"),
     'C20': ("proved: every sink of run_mapping (JSON config, JSON log, log file) is sanitised when cloud_safe, on "
             "normal and exceptional exits (taint ghost); bounded: cloud-safe runs over directory layouts x failure "
             "scenarios, sanitize_paths on message templates",
@@ -106,6 +106,8 @@ CLAIMED = {
             "third-party messages"),
 }
 
+# properties whose deciding clauses are executions (bounded stand-in), with only supporting facts proved
+CATEGORY = {'C15': 'exploration', 'C18': 'exploration'}
 REFS = {p: f"DESIGN.md section 4 {p}" for p in CLAIMED}
 NOT_APPLICABLE = {}
 
@@ -125,7 +127,7 @@ def main():
                 evidence_file=f"evidence/{pid}.json",
                 replay_cmd_template=f"./check {pid} --replay {{path}}",
                 engine="pyvc",
-                level_claimed=dict(category='proof', text=text, design_ref=REFS[pid]),
+                level_claimed=dict(category=CATEGORY.get(pid, 'proof'), text=text, design_ref=REFS[pid]),
                 level_note=note, technique=TECH))
         else:
             na.append(dict(property_id=pid, reason=NOT_APPLICABLE.get(pid, "no check built")))
